@@ -241,6 +241,17 @@ func VH_C18_Log(p []int) {
 	verifAssert(after.lvl == want, "level-algebra")
 	snap.lvl = want
 	vhAssertCfgSame(snap, after, "others")
+	// choosing another logger afterwards leaves the levels (and everything else) alone
+	dest := []any{"stderr", "stdout", "off", 2}[nondetChoice(4)]
+	if p[1] == 0 {
+		s.SetLogger(dest)
+	} else {
+		c.SetLogger(dest)
+	}
+	relog := vhSnapCfg(cfg)
+	verifAssert(relog.lvl == want, "levels-survive-SetLogger")
+	snap.logger = relog.logger
+	vhAssertCfgSame(snap, relog, "others-after-SetLogger")
 	verifReach("end")
 }
 
@@ -319,6 +330,10 @@ func VH_C18_Text(p []int) {
 		s.SetSymbol(txt)
 		if cfg.typ != list {
 			verifAssert(cfg.sym == txt, "symbol-stored")
+			if txt != "" {
+				// shown as given, whatever the case-folding option says
+				verifAssert(s.Kind() == txt, "symbol-shown-verbatim")
+			}
 			snap.sym = txt
 		} else {
 			verifAssert(cfg.sym == "", "symbol-list-ignored")
